@@ -28,7 +28,7 @@ REASONS = [
  (r"get_holidays_by_name::\{closure#0\}$", r"panic:Result::unwrap", "K", "every HOLIDAYS literal parses under the format string (C07 R07.2 checks all literals)"),
  (r"NamedCal::try_new$", r"ext:index", "G", "parts[0]/parts[1] behind the len()>2 / len()==1 branches; split always yields >= 1 piece"),
  (r"Dual2::try_new$", r"assert:Overflow\(Mul\)", "S", "n*n on usize lengths"),
- (r"Dual2::try_new$", r"panic:Result::expect", "G", "reshape behind `dual2.len() != n*n -> Err`"),
+ (r"Dual2::try_new$", r"panic:Result::unwrap", "G", "reshape behind `dual2.len() != n*n -> Err`"),
  (r"to_new_vars(::\{closure#\d\})?$", r"ext:arraytraits::index", "L", "index returned by get_index_of on the same vars list whose length equals the array's (type invariant |vars| = |dual|)"),
  (r"linalg_dual::argabsmax$", r"panic:Option::unwrap", "L", "max_by over the slice a[j.., j] with j < n: non-empty"),
  (r"(f?dmul\d\d_|fouter11_)$", r"panic:|ext:", "G", "shape asserts: operands come from csolve behind its tau/y length guards, or from square n x n matrices built in the same function"),
